@@ -66,3 +66,18 @@ CHECKS["C15"] = dict(
                "and loader equivalence for equivalent hints are not decided.",
     design_ref="DESIGN.md 2.2, 3/C15",
 )
+
+CHECKS["C11"] = dict(
+    category="other",
+    technique="cache-key soundness (bound-method factories, typed-equality taint, wrapper audit), clone discipline, "
+              "post-construction write inventory, facade cache key completeness",
+    text="Decides that the only channels through which one facade call could influence a later one are closed: every "
+         "cached factory is a bound provider method without access to request/mediator and keyed by type-exact "
+         "arguments; retorts, providers and mediators are never modified after construction except by inserts into "
+         "caches that _calculate_derived recreates for every clone; clone blocks touch only the clone; facade caches "
+         "are keyed by every parameter the maker consumes. A structural necessary-and-sufficient condition for history "
+         "independence of the library's own state, not a statement about user-supplied stateful providers.",
+    level_note="Trusted: Python ast; STORE_EXCEPTIONS table (2 named symbols with reasons); typing's equality of hints "
+               "for the process-wide lru_cache of normalize_type.",
+    design_ref="DESIGN.md 3/C11",
+)
